@@ -104,6 +104,7 @@ pub fn parse_action(s: &str) -> Option<Action> {
         "LockDeliver" => Action::LockDeliver,
         "Settle0" => Action::Settle0(n(0)?),
         "Isolate" => Action::Isolate(n(0)?),
+        "SetPrio" => Action::SetPrio(n(0)?, n(1)?),
         "DropAll" => Action::DropAll,
         _ => return None,
     })
